@@ -69,9 +69,9 @@ Theorem C20_sum_conserves_total_T : forall (A : bmat) (n : nat) (x : list R),
   sumT ROps (sum_tr ROps (transpose n A) x) = sumT ROps x.
 Proof. exact sum_conserves_total_T. Qed.
 
-(* the expression the code evaluates for kind="sum" on (N,1) data (x / wt with
-   wt of shape (1,N)) does NOT conserve the total: finding, see
-   known_findings.d/C20.json *)
+(* the expression the code evaluated for kind="sum" on (N,1) data before femio
+   commit b1450d5 (x / wt with wt of shape (1,N)) does NOT conserve the total:
+   finding, fixed; see known_findings.d/C20.json *)
 Theorem C20_sum_broadcast_refuted :
   exists (A : bmat) (x : list R),
     Forall (fun r => length r = length x) A /\
